@@ -657,6 +657,7 @@ func main() {
 	classes := map[string]int{}
 	kinds := map[string]int{}
 	grids := map[int]int{}
+	xformed := 0
 	names := []string{"P", "L", "Y", "MP", "ML", "MY", "GC"}
 	for i := 0; i < a.N; i++ {
 		r := root.Fork()
@@ -714,9 +715,24 @@ func main() {
 			A, B = B, A
 			A0, B0 = B0, A0
 		}
-		base := "-\t-"
-		if hasBase {
-			base = relate(A0, B0) + "\t" + preds(A0, B0)
+
+		// a quarter of the pairs is moved to another place and scale of the lattice |c| <= 2^10 (both
+		// operands by the same positive affine map: validity and the DE-9IM matrix are unchanged,
+		// intersection points become non-representable thirds, sevenths, ...)
+		if r.Chance(1, 4) {
+			sxs := []float64{1, 2, 3, 7, 50, 113}
+			sx, sy := sxs[r.Intn(len(sxs))], sxs[r.Intn(len(sxs))]
+			tx, ty := float64(r.Range(-100, 100)), float64(r.Range(-100, 100))
+			if r.Bool() {
+				sx, tx = -sx, -tx // reflection in x together with ...
+				sy, ty = -sy, -ty // ... reflection in y: a rotation by 180 degrees (orientation preserved)
+			}
+			f := func(xy geom.XY) geom.XY { return geom.XY{X: sx*xy.X + tx, Y: sy*xy.Y + ty} }
+			A, B = A.TransformXY(f), B.TransformXY(f)
+			if hasBase {
+				A0, B0 = A0.TransformXY(f), B0.TransformXY(f)
+			}
+			xformed++
 		}
 		va, vb := 0, 0
 		if A.Validate() == nil {
@@ -725,6 +741,10 @@ func main() {
 		if B.Validate() == nil {
 			vb = 1
 		}
+		base := "-\t-"
+		if hasBase {
+			base = relate(A0, B0) + "\t" + preds(A0, B0)
+		}
 		classes[class]++
 		kinds[names[ka]+"x"+names[kb]]++
 		grids[g]++
@@ -732,6 +752,6 @@ func main() {
 			relate(A, B), relate(B, A), preds(A, B), preds(B, A), va, vb, base)
 	}
 	js, _ := json.Marshal(map[string]interface{}{"classes": classes, "type_pairs": kinds, "grid_side": grids,
-		"matcher_patterns": len(patterns), "matcher_matrices": total, "matcher_strings": nStr})
+		"affine_moved_pairs": xformed, "matcher_patterns": len(patterns), "matcher_matrices": total, "matcher_strings": nStr})
 	fmt.Fprintf(w, "#GEN\t%s\n", js)
 }
